@@ -289,6 +289,17 @@ PLANS['C07'] = dict(
 )
 
 
+PLANS['C10'] = dict(
+    rule=RULE_B + RULE_A + 'non-trivial = a wait slept, or the round was a mixed +1/-1 round checked by exhaustive linearization search.',
+    groups=[
+        G('counter', 'c-plain', 'B', 12, 3000),
+        G('counter', 'c-plain', 'A', 4, 1500, thorough=40000),
+        G('counter', 'c-asan', 'B', 2, 1500),
+        G('counter', 'cpp-plain', 'B', 4, 20000, tier='thorough', thorough=20000),
+    ],
+)
+
+
 def expand(prop, tier, scale=1.0):
     spec = PLANS[prop]
     out = []
